@@ -607,3 +607,126 @@ pub fn replay_perm(case: &Value) -> Option<(String, String)> {
     set.sort();
     perm_check(env, &set).map(|(a, b, _)| (a, b))
 }
+
+// ------------------------------------------------------------------ long histories (size-related behaviour)
+
+/// Behaviour that depends on how many types a registry already holds (thresholds at 8, 16, 32 ... entries) is out
+/// of reach of the depth-bounded product. Reduction, as for the C12 long tables: one history registers EVERY member
+/// of U1, for every rotation of the member list and its reversal (2n orders); after every registration the
+/// property's own oracle is evaluated on the real Registry (C05: every member registered so far is registered again
+/// and must return its id and leave the registry unchanged; C11: the earlier snapshot is a prefix of the later
+/// one), and the final registry is compared with the one of the first order (C11: equal up to renaming),
+/// with the closure computed by the harness (C05), with the image oracle (C02) and the density/closure
+/// predicate (C01).
+pub fn long_history(env: &Env, pid: &str, rot: usize, reversed: bool) -> (u64, usize, Option<(String, String)>) {
+    let n = env.u.len();
+    let mut order: Vec<u16> = (0..n).map(|k| ((k + rot) % n) as u16).collect();
+    if reversed {
+        order.reverse();
+    }
+    let mut fail: Option<(String, String)> = None;
+    let (portable, ids, steps) = run_long(env, pid, &order, &mut fail);
+    let metas: Vec<(MetaType, u32)> = order.iter().map(|i| (env.u[*i as usize].meta, ids[*i as usize])).collect();
+    match pid {
+        "C01" => {
+            let snap: Snapshot = portable.types.iter().map(|t| (t.id, t.ty.clone())).collect();
+            if let Err(e) = c01_state(&snap, &portable, &ids) {
+                fail.get_or_insert(("dense-closed".into(), e));
+            }
+        }
+        "C02" => {
+            if let Err(e) = image_check(&portable, &metas) {
+                fail.get_or_insert(("image".into(), e));
+            }
+        }
+        "C05" => {
+            let want = closure(&metas.iter().map(|p| p.0).collect::<Vec<_>>()).len();
+            if portable.types.len() != want {
+                fail.get_or_insert(("entry-count".into(), format!("registry holds {} entries but {} distinct type identities are reachable from what was registered", portable.types.len(), want)));
+            }
+            for a in 0..n {
+                for b in a + 1..n {
+                    let (ma, mb) = (&env.u[a], &env.u[b]);
+                    if (ma.ident == mb.ident) != (ids[a] == ids[b]) {
+                        fail.get_or_insert((
+                            if ma.ident == mb.ident { "alias-not-merged".into() } else { "distinct-types-merged".into() },
+                            format!("{} and {} ({}) got ids {} and {}", ma.label, mb.label, if ma.ident == mb.ident { "one identity" } else { "different types" }, ids[a], ids[b]),
+                        ));
+                    }
+                }
+            }
+        }
+        "C11" => {
+            let mut f2 = None;
+            let (p2, _, _) = run_long(env, "", &order, &mut f2);
+            if p2.encode() != portable.encode() {
+                fail.get_or_insert(("replay-differs".into(), "replaying the same registrations gave different bytes".into()));
+            }
+            let base: Vec<u16> = (0..n as u16).collect();
+            let mut f3 = None;
+            let (p0, ids0, _) = run_long(env, "", &base, &mut f3);
+            if ids.iter().any(|i| *i as usize >= portable.types.len()) || ids0.iter().any(|i| *i as usize >= p0.types.len()) {
+                fail.get_or_insert(("perm-dangling".into(), "a returned id does not resolve".into()));
+            } else if (vcommon::refs::canonical_from(&portable, &ids), portable.types.len()) != (vcommon::refs::canonical_from(&p0, &ids0), p0.types.len()) {
+                fail.get_or_insert(("permutation-differs".into(), format!("registering all of U1 in this order and in declaration order give registries that differ beyond a renaming of ids ({} vs {} entries)", portable.types.len(), p0.types.len())));
+            }
+        }
+        _ => {}
+    }
+    (steps, portable.types.len(), fail.map(|(k, m)| (format!("long:{k}"), format!("{m} — all {n} members of U1 registered in rotation {rot}{}", if reversed { " reversed" } else { "" }))))
+}
+
+fn run_long(env: &Env, pid: &str, order: &[u16], fail: &mut Option<(String, String)>) -> (PortableRegistry, Vec<u32>, u64) {
+    let mut reg = Registry::new();
+    let mut ids = vec![u32::MAX; env.u.len()];
+    let mut steps = 0u64;
+    for (k, i) in order.iter().enumerate() {
+        let before = if pid == "C11" { Some(snapshot(&reg)) } else { None };
+        ids[*i as usize] = reg.register_type(&env.u[*i as usize].meta).id;
+        steps += 1;
+        if let Some(b) = before {
+            if let Err(e) = prefix_stable(&b, &snapshot(&reg)) {
+                fail.get_or_insert(("prefix-stability".into(), format!("{e} (step {k}, {} entries before)", b.len())));
+            }
+        }
+        if pid == "C05" {
+            let held = snapshot(&reg);
+            for j in &order[..=k] {
+                let again = reg.register_type(&env.u[*j as usize].meta).id;
+                steps += 1;
+                if again != ids[*j as usize] {
+                    fail.get_or_insert(("reregistration-new-id".into(), format!("re-registering {} returned id {again} but it was registered as id {} (registry holds {} entries)", env.u[*j as usize].label, ids[*j as usize], held.len())));
+                }
+            }
+            if snapshot(&reg) != held {
+                fail.get_or_insert(("reregistration-mutates".into(), format!("re-registering the {} members already present changed the registry (from {} entries)", k + 1, held.len())));
+            }
+        }
+    }
+    (reg.into(), ids, steps)
+}
+
+/// all 2n orders, in parallel
+pub fn explore_long(env: &'static Env, pid: &'static str) -> (u64, u64, usize, Vec<Violation>) {
+    use rayon::prelude::*;
+    let n = env.u.len();
+    let cases: Vec<(usize, bool)> = (0..n).flat_map(|r| [(r, false), (r, true)]).collect();
+    let res: Vec<(u64, usize, Option<Violation>)> = cases
+        .par_iter()
+        .map(|(rot, rev)| {
+            let r = catch(std::panic::AssertUnwindSafe(|| long_history(env, pid, *rot, *rev)));
+            let case = json!({"kind": "u1-long", "rotation": rot, "reversed": rev});
+            match r {
+                Ok((s, t, f)) => (s, t, f.map(|(key, msg)| Violation { key, msg, case })),
+                Err(p) => (0, 0, Some(Violation { key: "long:panic".into(), msg: format!("panicked: {p}"), case })),
+            }
+        })
+        .collect();
+    let steps = res.iter().map(|r| r.0).sum();
+    let maxt = res.iter().map(|r| r.1).max().unwrap_or(0);
+    (cases.len() as u64, steps, maxt, res.into_iter().filter_map(|r| r.2).collect())
+}
+
+pub fn replay_long(pid: &str, case: &Value) -> Option<(String, String)> {
+    long_history(env_full(), pid, case["rotation"].as_u64()? as usize, case["reversed"].as_bool()?).2
+}
